@@ -176,6 +176,8 @@ def run(ctx):
     seams(ctx, rng)
     n = ctx.budget(70, 900)
     cases = [c for c in (gen_case(rng, i) for i in range(n)) if c is not None]
+    reverse_order_probe(ctx, "procgen", "impl_result_only", cases,
+                        "curve-equals-defined-ratio", "hvsrpy.process in another order / fresh interpreter", sample=24)
     outs = run_driver([pg.model_line(c) for c in cases])
     for c, o in zip(cases, outs):
         im = pg.run_impl(c)
